@@ -217,7 +217,7 @@ pub fn execute(sc: &Scenario) -> Exec {
     }
     let clock_ns = stats.iter().map(|s| s.clock_advance_ns).sum();
     // profiling statistics are a process-global vector that grows with every call: drop them
-    blots_core::functions::clear_function_call_stats();
+    crate::session::trim_call_stats();
     Exec { threads, decisions, hash: h, clock_ns }
 }
 
